@@ -1,10 +1,10 @@
 package main
 
 import (
-	"sort"
 	"fmt"
 	"go/token"
 	"go/types"
+	"sort"
 	"strings"
 
 	"golang.org/x/tools/go/ssa"
@@ -658,6 +658,16 @@ func ruleC07R5(r *Run) {
 				key += fmt.Sprintf("#%d", seen[fk])
 			}
 			_, fresh := canonVal(mu.Value).(*ssa.MakeChan)
+			if _, isPrm := canonVal(mu.Value).(*ssa.Parameter); isPrm {
+				// a registration helper: fresh when every caller hands in a channel it has just made
+				origins, complete := p.originsThroughParams(mu.Value, 0)
+				fresh = complete && len(origins) > 0
+				for _, o := range origins {
+					if _, isMk := o.(*ssa.MakeChan); !isMk {
+						fresh = false
+					}
+				}
+			}
 			if ld, isLd := mu.Value.(*ssa.UnOp); isLd && ld.Op == token.MUL && !fresh {
 				// a variable shared with the enclosing function (the registration sits in a closure): made fresh when a
 				// store of a new channel into that variable dominates the registration
